@@ -5,3 +5,5 @@ cd "$(dirname "$0")"
 . ./env.sh
 cmp -s /repo/go.sum harness/go.sum || cp /repo/go.sum harness/go.sum
 ./check.sh --build-only
+# C17 runs one replica per history under the Go race detector: warm that build as well
+(cd harness && go build -race -tags verif -o ../bin/vcheck.race ./cmd/vcheck)
